@@ -2,6 +2,7 @@
    Rust Token carries for that TokenType (value_i, data[..], children), already reduced to integers
    where the fragment only admits literal arguments. *)
 From Sakura.Model Require Import Base.
+From Sakura.Model Require Reserve.   (* `which`: v / q / t / o / l *)
 
 Definition ISIZE_MIN : Z := - 9223372036854775808.
 
@@ -26,4 +27,22 @@ Inductive tok :=
 | TTrackSync | TPlayFromHere | TComment
 | TTime (args : list Z) | TPlayFrom (args : list Z) | TTimeSignature (args : list Z) | TMeasureShift (arg : Z) | TTempo (arg : Z)
 | TVAdd (arg : Z) | TQAdd (arg : Z) | TTieMode (args : list Z)
-| TValue (name : list ch) (args : option (list (option marg))) (lineno : Z).
+| TValue (name : list ch) (args : option (list (option marg))) (lineno : Z)
+(* controllers and bends with literal arguments (appended so that earlier case analyses keep their order) *)
+| TCC (no v : Z)                                   (* ControlChange: y<no>,<v>  CC(no,v)  M(v) V(v) ... *)
+| TPitchBend (big v : Z)                           (* PitchBend: value_i = 1 for PB / PitchBend, 0 for p *)
+| TRpnCmd (nrpn : bool) (msb lsb v : Z)            (* RPNCommand / NRPNCommand: BR(v) FineTune(v) VibratoRate(v) ... *)
+| TRpnDirect (nrpn : bool) (args : list Z)         (* RPN(a,b,c) / NRPN(a,b,c) *)
+(* reservations (literal arguments) *)
+| TRandom (w : Reserve.which) (r : Z)              (* v.Random q.Random t.Random o.Random *)
+| TOnNote (w : Reserve.which) (cyc : bool) (ia : list Z)   (* x.onNote / x.onCycle for v q t o l *)
+| TVOnTime (ia : list Z)                           (* v.onTime *)
+| TCCOnTime (no : Z) (ia : list Z)                 (* y<no>.onTime  M.onTime ...; Fadein / Fadeout *)
+| TCCOnNote (no : Z) (ia : list Z)
+| TCCOnNoteWave (no : Z) (ia : list Z)
+| TCCFreq (v : Z)                                  (* M.Frequency(n) *)
+| TPBOnTime (big : Z) (ia : list Z)                (* PB.onTime / p.onTime *)
+| TDecresc (len : list ch) (v1 v2 : Z)             (* Cresc / Decresc *)
+(* PLAY(part, ...) with literal parts; STR / Str definitions with a literal value *)
+| TPlay (args : list (option marg)) (lineno : Z)
+| TDefStr (name : list ch) (v : option marg).
